@@ -289,11 +289,17 @@ def run_property(prop: str, tier: str, seed: int, repo: str, only: Optional[str]
     n_covered = sum(1 for _, r in all_results if r.kind == 'cover' and r.status == 'covered')
 
     setup_paths(repo)
+    inconclusive_covers: list[str] = []
     for rep, r in all_results:
         if r.status in ('proved', 'covered'):
             continue
         if r.status == 'uncovered':
             undecided.append(f'{r.name}: vacuous (precondition / loop body unreachable)')
+            continue
+        if r.status == 'unknown' and r.kind == 'cover':
+            # a reachability cover under quantified hypotheses: solvers rarely build models there.  A contradictory
+            # precondition shows up as `unsat` (reported above as vacuous); `unknown` is recorded, not an alarm.
+            inconclusive_covers.append(r.name)
             continue
         if r.status == 'unknown':
             undecided.append(f'{r.name}: solver answered unknown ({r.reason})')
@@ -397,6 +403,7 @@ def run_property(prop: str, tier: str, seed: int, repo: str, only: Optional[str]
             'discharged': n_dis,
             'vacuity_covers': n_cover,
             'vacuity_covers_satisfiable': n_covered,
+            'vacuity_covers_inconclusive': sorted(set(inconclusive_covers)),
             'checker_cmd': f'./check {prop} --tier {tier}',
             'trusted_base': trusted,
             'explanation': getattr(mod, 'EXPLANATION', ''),
